@@ -215,6 +215,15 @@ Section Numeric.
     | Some c => grouped [] zero_row (car_base op) c x
     end.
 
+  (* the same when x has an integer dtype: `xout = np.zeros_like(x)` has x's dtype and the
+     assignment `xout[sel, :] = car(...)` casts the float result (cast = truncation towards
+     zero for integers, identity for floats); without a collection the float result is returned *)
+  Definition car_cast (cast : R -> R) (op : Z) (coll : option (list Z)) (x : mat) : option mat :=
+    match coll with
+    | None => Some (car_base op x)
+    | Some c => grouped [] zero_row (fun m => map (map cast) (car_base op m)) c x
+    end.
+
   (* kfilt / fk with a collection: the per-group call is the same function with
      the forwarded settings (base = the function without collection) *)
   Definition kfilt (base : kfilt_params -> mat -> mat) (p : kfilt_params)
@@ -304,7 +313,48 @@ Section Numeric.
     | Some lab => spatial_step spatial lab (interp lab x2)
     | None => spatial x2
     end.
+  (* the same as an explicit, ordered list of stages (the order is part of the model):
+       1 temporal Butterworth (sosfiltfilt along time, every row)
+       2 ADC re-alignment (fshift, every row)          -- absent when neuropixel_version is None
+       3 interpolate_bad_channels (every row)          -- only with channel labels
+       4 spatial filter, on the rows with label != 3 (or on every row without labels) *)
+  Definition stage_codes (has_shift : bool) (labels : option (list Z)) : list Z :=
+    [1%Z] ++ (if has_shift then [2%Z] else []) ++
+    match labels with Some _ => [3%Z; 4%Z] | None => [4%Z] end.
+
+  Definition apply_stage (butter1 : vec -> vec) (fshift1 : R -> vec -> vec)
+             (interp : list Z -> mat -> mat) (spatial : mat -> mat)
+             (shifts : option (list R)) (labels : option (list Z)) (x : mat) (code : Z) : mat :=
+    if (code =? 1)%Z then map butter1 x
+    else if (code =? 2)%Z then
+      match shifts with
+      | Some s => map (fun p => fshift1 (fst p) (snd p)) (combine s x)
+      | None => x
+      end
+    else if (code =? 3)%Z then
+      match labels with Some lab => interp lab x | None => x end
+    else if (code =? 4)%Z then
+      match labels with Some lab => spatial_step spatial lab x | None => spatial x end
+    else x.
+
+  Definition destripe_staged (butter1 : vec -> vec) (fshift1 : R -> vec -> vec)
+             (interp : list Z -> mat -> mat) (spatial : mat -> mat)
+             (shifts : option (list R)) (labels : option (list Z)) (x : mat) : mat :=
+    fold_left (apply_stage butter1 fshift1 interp spatial shifts labels)
+              (stage_codes (match shifts with Some _ => true | None => false end) labels) x.
 End Numeric.
+
+(* the observable trace of destripe: (stage code, number of rows handed to the stage) *)
+Definition destripe_trace (nc : Z) (has_shift : bool) (labels : option (list Z)) : list (Z * Z) :=
+  map (fun code => (code,
+                    if (code =? 4)%Z then
+                      match labels with
+                      | Some lab => Z.of_nat (length (inside_brain lab))
+                      | None => nc
+                      end
+                    else nc))
+      ([1%Z] ++ (if has_shift then [2%Z] else []) ++
+       match labels with Some _ => [3%Z; 4%Z] | None => [4%Z] end).
 
 (* agc: ns_win = int(np.round(wl / si / 2) * 2 + 1) with wl / si = p / q (q > 0);
    np.round rounds halves to even. *)
